@@ -23,7 +23,8 @@ func init() {
 			"R3 in ocimem every store into a repository's tags map holds (not ImmutableTags) or (tag absent) on every path (disjunctive path facts), every delete from tags holds not ImmutableTags, every delete from manifests/blobs holds (not ImmutableTags) or (not refersTo(repo, tag iterator of the same repo, the deleted digest)); " +
 			"R4 stored manifest bytes are parsed for references only under the media type stored with them (both arguments of the reference parser come from one stored blob, or both from the pushed parameters); " +
 			"R5 ocimem's descriptor iterators (the reachability walk's producers) obey the yield protocol: no yield is reachable after the consumer declined. " +
-			"R0 ReadOnly and Immutable wrap exactly the registry they were given; R6 (shared with C01.R5) stored bytes never alias a caller-owned slice.",
+			"R0 ReadOnly and Immutable wrap exactly the registry they were given; R6 (shared with C01.R5) stored bytes never alias a caller-owned slice. " +
+			"R7 in the reachability walk (refersTo) the callback continues after a recursive query only on edges where the answer is known false: a later sibling cannot overwrite \"found\".",
 		NotDecided: "'forever' as a behaviour over histories and the immutable wrapper's acknowledged race window (two concurrent pushes of one tag through the wrapper) are not decided; R3's lock discipline is decided under C08.",
 		Technique:  "static analysis: go/types method-set/embedding resolution, SSA dominance, disjunctive path-sensitive fact propagation",
 	})
@@ -38,6 +39,7 @@ func runC14(c *core.Ctx) {
 	wrapperHoldsItsRegistries(c, "C14.R0", "ocifilter", "Immutable")
 	c14ImmutableTags(c)
 	c14TypedInterpretation(c)
+	reachabilityStopsWhenFound(c, "C14.R7")
 	// R5: the descriptor iterators the reachability walk is built from obey the
 	// yield protocol (a producer that keeps yielding after `false` makes
 	// refersTo overwrite a positive answer with a later negative one).
